@@ -17,6 +17,9 @@ Every clause is recomputed from the raw vertex / face lists with plain numpy:
  invariance  bordered surfaces: same directions (measured against a fixed geometric edge of each element) after a random
              vertex renumbering + rotation of every face's start vertex
 """
+import os
+for _k in ('OMP_NUM_THREADS', 'OPENBLAS_NUM_THREADS', 'MKL_NUM_THREADS'):      # many tiny dense problems: threads only add overhead
+    os.environ.setdefault(_k, '1')
 import math, cmath
 import numpy as np
 from replay.common import *
@@ -25,6 +28,21 @@ import mouette as M
 from mouette import framefield as FF
 from mouette import operators
 from mouette.processing.connection import FlatConnectionVertices, FlatConnectionFaces
+
+import scipy.sparse.linalg as _spl
+
+_eigsh = _spl.eigsh
+
+
+def _eigsh_seeded(A, *a, **kw):
+    """the library estimates its smoothing weight with ARPACK started from an unseeded random vector: fix that vector so that
+    every run of this oracle is reproducible (the library code itself is untouched)"""
+    if kw.get('v0') is None:
+        kw['v0'] = np.random.RandomState(20240518).uniform(-1, 1, A.shape[0])
+    return _eigsh(A, *a, **kw)
+
+
+_spl.eigsh = _eigsh_seeded
 
 PI = math.pi
 CHECKS = ('run', 'unit', 'constraint', 'singular', 'laplacian', 'harmonic', 'invariance')
@@ -115,13 +133,13 @@ def build_mesh(name, p, seed):
                 if abs(q + r) <= R:
                     idx[(q, r)] = len(V)
                     V.append([q + r / 2.0, r * math.sqrt(3) / 2, p.get('dome', 0.0) * (R * R - (q + r / 2.0) ** 2 - 0.75 * r * r)])
-        for (q, r) in list(idx):
-            if (q + 1, r) in idx and (q, r + 1) in idx:
+        for (q, r) in [(q, r) for q in range(-R - 1, R + 1) for r in range(-R - 1, R + 1)]:
+            if (q, r) in idx and (q + 1, r) in idx and (q, r + 1) in idx:
                 F.append([idx[(q, r)], idx[(q + 1, r)], idx[(q, r + 1)]])
             if (q + 1, r) in idx and (q + 1, r + 1) in idx and (q, r + 1) in idx:
                 F.append([idx[(q + 1, r)], idx[(q + 1, r + 1)], idx[(q, r + 1)]])
         planar = p.get('dome', 0.0) == 0
-        V = jitter(V, F, p.get('jit', 0.0), rnd, planar=planar)
+        V = jitter(V, F, p.get('jit', 0.0), rnd, keep_border=not p.get('bjit', False), planar=planar)
         return V, F, planar
     if name == 'lshape':
         n = p['n']
@@ -169,6 +187,10 @@ def build_mesh(name, p, seed):
             q = j + 0.45 * i
             return (i, q, 0.0) if d <= 0 else (mid + d * math.cos(a), q, d * math.sin(a))
         V, F = tri_grid(n, p.get('nv', n), pos, alt=True)
+        bend = p.get('bend', 0.0)           # roll the sheet around an axis parallel to x: the crease becomes an arc
+        if bend:
+            Rr = 1.0 / bend
+            V = [[x, (Rr - z) * math.sin(y / Rr), Rr - (Rr - z) * math.cos(y / Rr)] for x, y, z in V]
         return V, F, False
     if name == 'cyl':            # open cylinder, two border loops
         nt, nh = p['nt'], p['nh']
@@ -190,7 +212,7 @@ def build_mesh(name, p, seed):
         V = jitter(V, F, p.get('jit', 0.0), rnd)
         return V, F, False
     if name == 'tetra':
-        V = [[1, 1, 1], [1, -1, -1], [-1, 1, -1], [-1, -1, 1.3]]
+        V = [[1, 1, 1], [1.2, -1, -0.9], [-1, 0.9, -1.1], [-0.8, -1.1, 1.3]]
         F = [[0, 1, 2], [0, 3, 1], [0, 2, 3], [1, 3, 2]]
         F = [[f[0], f[2], f[1]] for f in F]
         for _ in range(p.get('sub', 0)):
@@ -377,7 +399,8 @@ class Run:
         s.faces = cfg['element'] == 'faces'
         s.n = cfg['order']
         s.exc = None
-        s.fe = s.geo.feature_edges(cfg['features'])
+        s.features = bool(cfg['features'] or (cfg['cad'] and not s.faces))     # documented: the CAD correction switches feature detection on
+        s.fe = s.geo.feature_edges(s.features)
         s.fverts = {v for e in s.fe for v in e}
         try:
             s.mesh = make_mesh(V, F)
@@ -556,7 +579,7 @@ def chk_constraint(r):
     g, n = r.geo, r.n
     lib_fe = r.lib_feature_edges()
     if lib_fe != r.fe:
-        return 'constrained edge set differs from border%s edges: extra %r missing %r' % (' + crease' if r.cfg['features'] else '', sorted(lib_fe - r.fe)[:5], sorted(r.fe - lib_fe)[:5])
+        return 'constrained edge set differs from border%s edges: extra %r missing %r' % (' + crease' if r.features else '', sorted(lib_fe - r.fe)[:5], sorted(r.fe - lib_fe)[:5])
     err = r.check_bases() if r.cfg['conn'] != 'flat' else None
     if err:
         return err
@@ -605,9 +628,7 @@ def chk_constraint(r):
             if abs(r.var[v] - exp) > 1e-7:
                 return 'constrained vertex %d: frame %r, expected %r (normalised mean of the %d incident feature edge directions to the power %d)' % (v, complex(r.var[v]), complex(exp), len(terms), n)
         # straight feature line through v on a planar mesh: a branch must be tangent to it
-        if len(inc[v]) == 2 and (flat or r.planar) and not flat:
-            pass
-        if len(inc[v]) == 2:
+        if len(inc[v]) == 2 and r.planar:
             E1, E2 = g.V[inc[v][0]] - g.V[v], g.V[inc[v][1]] - g.V[v]
             if np.linalg.norm(np.cross(E1, E2)) < 1e-12 * np.linalg.norm(E1) * np.linalg.norm(E2) and np.dot(E1, E2) < 0:
                 a = t[(v, inc[v][0])]
@@ -780,8 +801,10 @@ def rel_directions(r, V, F, perm=None):
 
 def chk_invariance(r, V, F):
     cfg = r.cfg
-    if not r.geo.border or cfg['cad'] or (cfg['n_smooth'] > 0 and cfg['alpha'] is None):
-        return None
+    if not r.geo.border or cfg['cad']:
+        return None           # CAD correction: the transport is corrected by an iterative QP solver (accuracy 1e-3 by construction)
+    # automatic smoothing weight = eigenvalue estimate that the library computes to a relative accuracy of 1e-3 only: loose tolerance
+    tol = 5e-3 if (cfg['n_smooth'] > 0 and cfg['alpha'] is None) else 1e-6
     V2, F2, perm = permuted(V, F, cfg['seed'])
     r2 = Run(V2, F2, cfg)
     r2.planar = r.planar
@@ -791,9 +814,9 @@ def chk_invariance(r, V, F):
     w2 = rel_directions(r2, V, F, perm)
     d = np.abs(w1 - w2)
     i = int(np.argmax(d))
-    if d[i] > 1e-6:
-        return 'direction of %s %d relative to its reference edge changes after renumbering vertices / rotating face start vertices: z=%r vs %r (%d of %d elements differ by more than 1e-6)' % (
-            cfg['element'][:-1], i, complex(w1[i]), complex(w2[i]), int(np.sum(d > 1e-6)), len(d))
+    if d[i] > tol:
+        return 'direction of %s %d relative to its reference edge changes after renumbering vertices / rotating face start vertices: z=%r vs %r (%d of %d elements differ by more than %g)' % (
+            cfg['element'][:-1], i, complex(w1[i]), complex(w2[i]), int(np.sum(d > tol)), len(d), tol)
     return None
 
 
@@ -823,90 +846,99 @@ def run_check(r, V, F, check):
 
 
 # ----------------------------------------------------------------------------------------------- enumeration
+ODD_STRAIGHT = [{'features': [False]}, {'features': [True], 'order': [2, 3, 4]}]     # straight crease lines: keep few odd-order cases
+
+
 def mesh_family(thorough):
+    """(family name, parameters, rules); rules: only = list of {key: allowed values} (a configuration is kept if it matches one),
+    flat = also run with the library's flat connection, cad = orders for which the CAD correction is also run (vertices)"""
     fam = [
-        ('pgrid', dict(nu=5, nv=7, shear=0.3, jit=0.3)),                 # unequal resolutions, oblique corners, straight borders
-        ('pgrid', dict(nu=4, nv=5, shear=0.0, jit=0.35, bjit=True)),     # nothing aligned
-        ('pgrid', dict(nu=5, nv=5, shear=0.0, jit=0.0)),                 # fully symmetric square, right-angled diagonals
-        ('annulus', dict(nr=3, nt=7, jit=0.25)),                          # two border loops
-        ('hex', dict(R=2, jit=0.2)),                                      # 120 degree corners
-        ('lshape', dict(n=2, jit=0.3)),                                   # re-entrant corner
-        ('twocomp', dict()),                                              # two components, three loops
-        ('fan', dict(k=5)),                                               # a single interior vertex
-        ('strip', dict(n=4)),                                             # no interior vertex
-        ('tri1', dict()),                                                 # a single face
-        ('ears', dict(nu=3, nv=4, jit=0.2)),                              # faces with two border edges
-        ('saddle', dict(nu=5, nv=6, amp=0.12, jit=0.2)),                  # curved, bordered
-        ('fold', dict(n=5, nv=6, deg=90)),                                # crease feature line reaching the border
-        ('hex', dict(R=2, dome=0.35, jit=0.1)),                           # curved dome
-        ('cyl', dict(nt=7, nh=4, jit=0.1)),                               # curved, two loops
-        ('halfocta', dict(sub=1, jit=0.05)),                              # hemisphere
-        ('torus_hole', dict(nu=6, nv=5)),                                 # genus 1 with one border loop
-        ('tetra', dict(sub=0)),                                           # closed, all edges are creases
-        ('octa', dict(sub=1, jit=0.05)),                                  # closed, smooth
-        ('icosa', dict(jit=0.1)),                                         # closed
-        ('cube', dict(k=2)),                                              # closed with crease lines
-        ('torus', dict(nu=7, nv=5)),                                      # genus 1
-        ('voxels', dict(k=1)),                                            # genus 2, crease lines
-        ('twotets', dict()),                                              # two closed components
+        ('pgrid', dict(nu=5, nv=7, shear=0.3, jit=0.3), dict(flat=True)),          # unequal resolutions, oblique corners, straight borders
+        ('pgrid', dict(nu=5, nv=5, shear=0.0, jit=0.35, bjit=True), dict(flat=thorough)),   # nothing aligned
+        ('pgrid', dict(nu=5, nv=5, shear=0.0, jit=0.0), dict(only=[{'order': [1, 4], 'features': [False]}], noinv=True)),   # fully symmetric square, right-angled diagonals
+        ('annulus', dict(nr=3, nt=7, jit=0.25), {}),                               # two border loops
+        ('hex', dict(R=2, jit=0.2), {}),                                           # 120 degree corners
+        ('lshape', dict(n=2, jit=0.3), {}),                                        # re-entrant corner
+        ('twocomp', dict(), {}),                                                   # two components, three loops
+        ('fan', dict(k=5), {}),                                                    # a single interior vertex
+        ('strip', dict(n=4), dict(only=[{'order': [3], 'features': [False]}])),                      # no interior vertex, end faces with two border edges
+        ('tri1', dict(), dict(only=[{'order': [4], 'n_smooth': [0]}])),            # a single face
+        ('ears', dict(nu=3, nv=4, jit=0.2), dict(only=[{'order': [4], 'features': [False]}])),       # faces with two border edges
+        ('saddle', dict(nu=5, nv=7, amp=0.12, jit=0.2), dict(cad=[2, 4, 5])),      # curved, bordered
+        ('fold', dict(n=5, nv=7, deg=90, bend=0.15), dict(cad=[4])),               # curved crease line reaching the border
+        ('fold', dict(n=5, nv=7, deg=90), dict(only=[{'features': [True], 'order': [3, 4]}])),   # straight crease line
+        ('hex', dict(R=2, dome=0.35, jit=0.1), {}),                                # curved dome
+        ('cyl', dict(nt=9, nh=4, jit=0.1), {}),                                    # curved, two loops
+        ('halfocta', dict(sub=1, jit=0.05), {}),                                   # hemisphere
+        ('torus_hole', dict(nu=8, nv=7), {}),                                      # genus 1 with one border loop
+        ('tetra', dict(sub=0), {}),                                                # closed, all edges are creases
+        ('octa', dict(sub=1, jit=0.05), {}),                                       # closed, smooth
+        ('icosa', dict(jit=0.1), {}),                                              # closed
+        ('cube', dict(k=2), dict(only=ODD_STRAIGHT)),                              # closed with straight crease lines
+        ('torus', dict(nu=8, nv=7), {}),                                           # genus 1
+        ('voxels', dict(k=1), dict(only=[{'features': [False]}, {'features': [True], 'order': [2, 4]}])),   # genus 2, crease lines
+        ('twotets', dict(), dict(only=[{'order': [4], 'n_smooth': [0]}])),         # two closed components
     ]
     if thorough:
         fam += [
-            ('pgrid', dict(nu=7, nv=9, shear=0.2, jit=0.3)),
-            ('pgrid', dict(nu=3, nv=3, shear=0.0, jit=0.0)),
-            ('pgrid', dict(nu=4, nv=6, shear=0.5, jit=0.2, alt=False)),
-            ('annulus', dict(nr=2, nt=5, jit=0.0, ecc=0.7)),
-            ('annulus', dict(nr=4, nt=9, jit=0.2)),
-            ('hex', dict(R=1)),
-            ('hex', dict(R=3, jit=0.25)),
-            ('lshape', dict(n=3, jit=0.2)),
-            ('fan', dict(k=3)),
-            ('fan', dict(k=8)),
-            ('strip', dict(n=2)),
-            ('ears', dict(nu=4, nv=4, jit=0.0)),
-            ('saddle', dict(nu=7, nv=7, amp=0.2, jit=0.2)),
-            ('fold', dict(n=7, nv=5, deg=75)),
-            ('fold', dict(n=5, nv=5, deg=40)),
-            ('cyl', dict(nt=9, nh=3, jit=0.0)),
-            ('halfocta', dict(sub=2, jit=0.02)),
-            ('torus_hole', dict(nu=8, nv=6, jit=0.05)),
-            ('tetra', dict(sub=2)),
-            ('octa', dict(sub=0)),
-            ('octa', dict(sub=2, jit=0.02)),
-            ('cube', dict(k=1)),
-            ('cube', dict(k=3)),
-            ('torus', dict(nu=9, nv=6, jit=0.05)),
-            ('voxels', dict(k=2)),
+            ('pgrid', dict(nu=7, nv=9, shear=0.2, jit=0.3), {}),
+            ('pgrid', dict(nu=3, nv=3, shear=0.0, jit=0.0), dict(only=[{'order': [2, 3], 'features': [False]}], noinv=True)),
+            ('pgrid', dict(nu=5, nv=7, shear=0.5, jit=0.2, bjit=True), dict(flat=True)),
+            ('annulus', dict(nr=2, nt=5, jit=0.0, ecc=0.7), {}),
+            ('annulus', dict(nr=4, nt=9, jit=0.2), dict(flat=True)),
+            ('hex', dict(R=1, jit=0.15, bjit=True), {}),
+            ('hex', dict(R=3, jit=0.25), {}),
+            ('lshape', dict(n=3, jit=0.2), {}),
+            ('fan', dict(k=3), {}),
+            ('fan', dict(k=8), {}),
+            ('ears', dict(nu=4, nv=4, jit=0.0), dict(only=[{'order': [5], 'features': [False]}])),
+            ('saddle', dict(nu=7, nv=7, amp=0.2, jit=0.2), dict(cad=[3, 4])),
+            ('fold', dict(n=5, nv=9, deg=75, bend=0.1), {}),
+            ('fold', dict(n=5, nv=5, deg=40, bend=0.1), {}),
+            ('cyl', dict(nt=11, nh=3, jit=0.0), {}),
+            ('halfocta', dict(sub=2, jit=0.02), {}),
+            ('torus_hole', dict(nu=9, nv=8, jit=0.05), {}),
+            ('tetra', dict(sub=2), dict(only=ODD_STRAIGHT)),
+            ('octa', dict(sub=0), {}),
+            ('octa', dict(sub=2, jit=0.02), {}),
+            ('cube', dict(k=1), dict(only=ODD_STRAIGHT)),
+            ('cube', dict(k=3), dict(only=[{'features': [False]}, {'features': [True], 'order': [2, 4, 6]}])),
+            ('torus', dict(nu=9, nv=8, jit=0.05), {}),
+            ('voxels', dict(k=2), dict(only=[{'features': [False]}, {'features': [True], 'order': [2, 4]}])),
         ]
     return fam
 
 
-def option_sets(name, p, planar, closed, seed, mi, thorough):
+def option_sets(name, p, rules, planar, closed, seed, mi, thorough):
     """deterministic covering of the option space: every order x element for every mesh, the remaining options rotate"""
     rnd = random.Random(seed * 1000003 + mi)
     out = []
+
+    def cfg_of(element, order, feat, ns, alpha, cot, sn=True, cad=False, conn='default'):
+        return dict(mesh=name, params=p, element=element, order=order, features=feat, n_smooth=ns, cotan=cot, alpha=alpha,
+                    smooth_normals=sn, cad=cad, conn=conn, seed=seed)
     for element in ('faces', 'vertices'):
         for order in range(1, 7):
-            combos = []
-            base = [(0, None), (2, None), (3, 0.7)] if thorough else [(0, None), (rnd.choice([1, 2, 3]), rnd.choice([None, 0.5]))]
+            base = [(0, None), (2, None), (3, 0.05)] if thorough else [(0, None), (rnd.choice([1, 2, 3]), rnd.choice([None, 0.05]))]
             for (ns, alpha) in base:
-                feats = (False, True) if (thorough or ns == 0) else (rnd.choice([False, True]),)
+                feats = (False, True) if ns == 0 else (rnd.choice([False, True]),)
                 for feat in feats:
-                    cots = (True, False) if thorough else (rnd.choice([True, False]),)
+                    cots = (True, False) if (thorough and ns == 0) else (rnd.choice([True, False]),)
                     for cot in cots:
-                        combos.append(dict(features=feat, n_smooth=ns, alpha=alpha, cotan=cot))
-            for c in combos:
-                conn = 'default'
-                sn, cad = True, False
-                if element == 'vertices':
-                    sn = rnd.random() < 0.6
-                    cad = (not closed) and rnd.random() < (0.15 if not thorough else 0.2)
-                if planar and rnd.random() < 0.3:
-                    conn = 'flat'
-                    cad = False
-                cfg = dict(mesh=name, params=p, element=element, order=order, features=c['features'], n_smooth=c['n_smooth'], cotan=c['cotan'],
-                           alpha=c['alpha'], smooth_normals=sn, cad=cad, conn=conn, seed=seed)
-                out.append(cfg)
+                        sn = True if element == 'faces' else rnd.random() < 0.6
+                        out.append(cfg_of(element, order, feat, ns, alpha, cot, sn=sn))
+            if rules.get('flat') and planar:
+                out.append(cfg_of(element, order, False, 0, None, order % 2 == 0, sn=order % 3 != 0, conn='flat'))
+                if thorough:
+                    out.append(cfg_of(element, order, False, 2, 0.05, order % 2 == 1, sn=order % 3 == 0, conn='flat'))
+            if order == 4 and not closed:       # automatic smoothing weight with uniform weights, both elements
+                out.append(cfg_of(element, order, False, 2, None, False, sn=True))
+            if element == 'vertices' and order in rules.get('cad', []):
+                out.append(cfg_of(element, order, order % 2 == 0, 0, None, True, sn=True, cad=True))
+                out.append(cfg_of(element, order, True, 2, 0.05, False, sn=order % 2 == 0, cad=True))
+    only = rules.get('only')
+    if only:
+        out = [c for c in out if any(all(c[k] in allowed for k, allowed in rule.items()) for rule in only)]
     return out
 
 
@@ -948,16 +980,24 @@ def main():
     fam = mesh_family(thorough)
     # interleave: all meshes for one (element, order, options) slot before the next slot, so that a truncated run still covers every mesh
     per_mesh = []
-    for mi, (name, p) in enumerate(fam):
+    for mi, (name, p, rules) in enumerate(fam):
         V, F, planar = build_mesh(name, p, seed)
         g = Geo(V, F)
+        for _ in range(6):               # keep every dihedral angle clear of the crease threshold: damp the jitter if needed
+            if g.problems or g.min_feature_margin() >= 0.03 or not p.get('jit'):
+                break
+            p = dict(p, jit=p['jit'] / 2)
+            V, F, planar = build_mesh(name, p, seed)
+            g = Geo(V, F)
         if g.problems:
             respond(failing=None, cases=0, note='oracle bug: family member %s %r is not a valid surface: %r' % (name, p, g.problems[:3]))
-        per_mesh.append((V, F, planar, option_sets(name, p, planar, not g.border, seed, mi, thorough)))
+        if g.min_feature_margin() < 0.03:
+            respond(failing=None, cases=0, note='oracle bug: family member %s %r has a dihedral angle too close to the crease threshold' % (name, p))
+        per_mesh.append((V, F, planar, option_sets(name, p, rules, planar, not g.border, seed, mi, thorough), bool(rules.get('noinv'))))
     slot = 0
     while True:
         live = False
-        for (V, F, planar, opts) in per_mesh:
+        for (V, F, planar, opts, noinv) in per_mesh:
             if slot >= len(opts):
                 continue
             live = True
@@ -969,6 +1009,8 @@ def main():
             r = Run(V, F, cfg)
             r.planar = planar
             for check in checks_for(cfg):
+                if noinv and check == 'invariance':
+                    continue     # exactly symmetric mesh: the harmonic field vanishes on some elements (see 'unit'), directions undefined there
                 n += 1
                 err = run_check(r, V, F, check)
                 if err:
